@@ -2070,6 +2070,11 @@ var (
 )
 
 func isMutator(pi *pkgInfo, dir, fn string) bool {
+	if allowParamMutation {
+		// the item asked for the older reading: writes through parameters and receivers are local
+		// updates, nothing is handed back
+		return false
+	}
 	key := dir + "." + fn
 	if mutDone[key] {
 		return mutVal[key]
